@@ -13,6 +13,7 @@
 (*   C40_Plain      IsPlain(Raw(v))      (what yaml.safe_dump / safe_load accept)   *)
 (*   C40_RoundTrip  Same(Load(T, Raw(v)), v)  (incl. the XGrid log flag)            *)
 (*   C40_Interp     dispatcher flag/degree = declared flag/degree                   *)
+(*   C40_InterpGrid dispatcher grid points = declared grid points                    *)
 (*                                                                                 *)
 (* Values and types are records of ONE shape each, so TLC equality is total.        *)
 EXTENDS Naturals, Sequences, FiniteSets, TLC
@@ -237,4 +238,6 @@ C40_RoundTrip(T, v) == IsPlain(Raw(v)) => Same(Load(T, Raw(v)), v)
 DispatcherFlag(cardXgridFlag, declaredFlag) ==
   IF Design = "intended" THEN declaredFlag ELSE cardXgridFlag
 C40_Interp(declFlag, declDeg, dispFlag, dispDeg) == dispFlag = declFlag /\ dispDeg = declDeg
+(* and the points the dispatcher interpolates on are the x values the card declares *)
+C40_InterpGrid(pts) == pts = "same"
 =============================================================================
